@@ -658,6 +658,10 @@ def _branches(repo, fi: FuncInfo) -> Tuple[List[Tuple[list, list]], Optional[str
                 sides = [e.left, e.comparators[0]]
                 names = [ap(s) for s in sides]
                 consts = [s.value for s in sides if isinstance(s, ast.Constant) and isinstance(s.value, str)]
+                if flav is not None and flav in names and not consts:
+                    # the flavour named through a module / class constant (`flavor == _LEGACY_FLAVOR`)
+                    okf, cf = _cv_expr(repo, fi, sides[1 - names.index(flav)])
+                    consts = [cf] if okf and isinstance(cf, str) else []
                 if flav is not None and flav in names and len(consts) == 1:
                     ffacts.append((consts[0], pol == isinstance(e.ops[0], ast.Eq)))
                     continue
@@ -996,6 +1000,24 @@ def r2(ctx):
         ok = isinstance(chars, str) and all(ord(ch) < 128 for ch in chars)
         _ob(ctx, "C20.R2", f"_yield_schema_tokens: line strip{'' if i == 0 else f' #{i + 1}'} removes ASCII blanks only", ok,
             ctx.w(f, c), f"`{norm(c)}` strips every Unicode space from the line")
+
+    # the text readers are fed lines cut at "\n" (readline): str.splitlines() also cuts at VT, FF, FS/GS/RS, NEL,
+    # U+2028 and U+2029, which are ordinary value characters of the format
+    nsplit = 0
+    for rel in (SCHEMA, INV, WEARABLES):
+        mod = repo.module(rel)
+        for f in repo.all_funcs:
+            if f.module is not mod or f.parent_fn is not None:
+                continue
+            hits = [c for c in calls(f.node, into_defs=True) if call_attr(c) == "splitlines" and isinstance(c.func, ast.Attribute)]
+            for i, c in enumerate(hits):
+                nsplit += 1
+                _ob(ctx, "C20.R2", f"{f.qual}: text is cut into lines at the line terminator only{'' if i == 0 else f' #{i + 1}'}",
+                    False, ctx.w(f, c),
+                    f"`{norm(c)}` also splits at \\x0b, \\x0c, \\x1c-\\x1e, \\x85, U+2028 and U+2029: a name, description or "
+                    f"metadata string containing one of them is broken into two lines and the rest of the value is lost")
+    _ob(ctx, "C20.R2", "legacy text readers never re-split their input on Unicode line boundaries", nsplit == 0,
+        f"{SCHEMA}:1", f"{nsplit} splitlines() call(s) in the text schema modules")
 
     # tz lint (shared hipposa.tzlint) on the schema modules
     sites = tz_sites(repo, (SCHEMA, INV))
@@ -1740,6 +1762,23 @@ def _sender_chunking(ctx, send: FuncInfo, send_fns, pf: FuncInfo, pc: ast.Call):
             continue
         e = _expand(fn, src_e)
         cfn, cV, cev, feeds = fn, V, ConstEval(repo, send.module), []
+        # enumerate(to_chunks(V, K)) / dict(enumerate(...)): numbered windows cut by helpers.to_chunks
+        inner = e
+        while isinstance(inner, ast.Call) and ap(inner.func) in ("dict", "enumerate", "list", "tuple") and inner.args:
+            inner = inner.args[0]
+        if isinstance(inner, ast.Call) and (ap(inner.func) or "").split(".")[-1] == "to_chunks" and len(inner.args) == 2 \
+                and ap(inner.args[0]) == cV:
+            tch = repo.fn("to_chunks", HELPERS)
+            tp = _first_params(tch)
+            takes = [n for n in walk(tch.node) if isinstance(n, ast.Subscript) and isinstance(n.slice, ast.Slice)
+                     and ap(n.value) == tp[0]]
+            shape = len(tp) == 2 and len(takes) == 2 and \
+                any(n.slice.lower is None and ap(n.slice.upper) == tp[1] for n in takes) and \
+                any(n.slice.upper is None and ap(n.slice.lower) == tp[1] for n in takes)
+            ctx.require(shape, "C20.R4: helpers.to_chunks no longer takes x[:n] and advances by x[n:] (re-read)")
+            prods.append(dict(fn=cfn, ev=cev, V=cV, key=None, val=None, loops=[], stmt=st.node,
+                              feeds=[inner.args[1]], where=ctx.w(send, st.node), by_helper=inner.args[1]))
+            continue
         if isinstance(e, ast.Call) and not isinstance(e, ast.DictComp):
             # a helper (module-level function or self./cls. method) that returns the chunk table of its argument
             g, skip = None, 0
@@ -1772,6 +1811,12 @@ def _sender_chunking(ctx, send: FuncInfo, send_fns, pf: FuncInfo, pc: ast.Call):
     control: List[Tuple[ast.AST, ast.AST]] = []   # (expression deciding which chunks are cut, its function node)
     for pr in prods:
         pfn, ev, pV = pr["fn"], pr["ev"], pr["V"]
+        if pr.get("by_helper") is not None:
+            # to_chunks takes and advances by its one size argument (shape confirmed above)
+            control.extend((x, fn) for x in pr["feeds"])
+            sizes.append(("take", {1: 1}))
+            sizes.append(("advance", {1: 1}))
+            continue
         control.append((pr["key"], pfn))
         for lp in pr["loops"]:
             control.append((lp.test if isinstance(lp, ast.While) else lp.iter, pfn))
@@ -1870,6 +1915,29 @@ def _expected_plus_one(ctx, rule, fi: FuncInfo, key_expr):
                bool(facts(st.node, fi.node)), ctx.w(fi, st.node), "unconditional: every packet would end the transfer")
 
 
+def _object_method_sites(repo, h: FuncInfo, name: str):
+    """(method of the transfer object, call of `name` in it, call site in the handler) for completion logic that was
+    moved onto the state object: `xfer.<m>()` in the handler where `xfer` is a parameter annotated with a repo class
+    whose method <m> (or a self. helper of it) calls `name`."""
+    out = []
+    ann = {}
+    for a in h.node.args.args:
+        if a.annotation is not None:
+            ci = repo.resolve_class((ap(a.annotation) or "").split(".")[-1], h.module)
+            if ci is not None:
+                ann[a.arg] = ci
+    for site in calls(h.node):
+        if isinstance(site.func, ast.Attribute) and isinstance(site.func.value, ast.Name) and site.func.value.id in ann \
+                and site.func.attr != name:
+            m = _lookup_method(repo, ann[site.func.value.id], site.func.attr)
+            if m is None:
+                continue
+            for f in class_methods_reachable(repo, m):
+                for c in find_calls(f.node, name):
+                    out.append((f, c, site))
+    return out
+
+
 def r5(ctx):
     repo = ctx.repo
     ctx.rule("C20.R5", "Xfer and Transfer complete on the number of chunks held (not on the end marker alone), "
@@ -1879,16 +1947,24 @@ def r5(ctx):
     for cname, rel, h in sibs:
         fns = class_methods_reachable(repo, h)
         marks = [(f, c) for f in fns for c in find_calls(f.node, "mark_done")]
+        obj_sites = {id(c): site for f, c, site in _object_method_sites(repo, h, "mark_done")}
+        marks += [(f, c) for f, c, site in _object_method_sites(repo, h, "mark_done")]
         ctx.require(marks, f"C20.R5: {h.qual} never completes the transfer (mark_done vanished; re-read)")
         cst = [st for f in fns for st in _chunk_stores(f)]
         ctx.require(len(cst) == 1, f"C20.R5: expected one store into .chunks in {h.qual}, found {len(cst)}")
         T = cst[0]
         for i, (f, c) in enumerate(marks):
             fs = facts(c, f.node)
-            if f is not h:      # completion extracted into a helper: the guards at its call sites count too
+            site_in_h = None
+            if id(c) in obj_sites:      # completion moved onto the transfer object: guards at the handler's call count too
+                site_in_h = obj_sites[id(c)]
+                fs = fs + facts(site_in_h, h.node)
+            elif f is not h:      # completion extracted into a helper: the guards at its call sites count too
                 sites = [x for g in fns if g is not f for x in find_calls(g.node, f.name)]
                 if len(sites) == 1:
                     fs = fs + facts(sites[0], next(g for g in fns if any(x is sites[0] for x in calls(g.node, True))).node)
+                    if any(x is sites[0] for x in calls(h.node, True)):
+                        site_in_h = sites[0]
             def count_cmp(e, fn_node):
                 """the (hoisted-local expanded) comparison of len(<x>.chunks) this condition *requires*, if any:
                 a comparison itself, or an `or` every alternative of which is one (an `or` with any other
@@ -1914,14 +1990,15 @@ def r5(ctx):
                                                             for x in ast.walk(e) if isinstance(x, ast.Attribute))
                 _ob(ctx, "C20.R5", f"{h.qual}: completion{tag} compares the count with expected_chunks", exp_ok, ctx.w(f, c),
                        f"count is compared in `{norm(e)}`")
-            if f is h:
-                _ob(ctx, "C20.R5", f"{h.qual}: chunk is stored before completion{tag} is decided", _precedes(T.node, c),
-                       ctx.w(f, c), "the completion test runs before the arriving chunk is stored: the last "
-                                    "chunk to arrive never completes the transfer")
+            decided_at = c if f is h else site_in_h
+            if decided_at is not None:
+                _ob(ctx, "C20.R5", f"{h.qual}: chunk is stored before completion{tag} is decided", _precedes(T.node, decided_at),
+                       ctx.w(h, decided_at), "the completion test runs before the arriving chunk is stored: the last "
+                                             "chunk to arrive never completes the transfer")
                 for st in stores(h.node, into_defs=False):
                     if st.kind == "assign" and st.path.endswith(".expected_chunks"):
                         _ob(ctx, "C20.R5", f"{h.qual}: expected_chunks is recorded before completion{tag} is decided",
-                               _precedes(st.node, c), ctx.w(f, st.node))
+                               _precedes(st.node, decided_at), ctx.w(h, st.node))
         if cname == "Transfer":
             _expected_plus_one(ctx, "C20.R5", h, T.target.slice)
         ra = repo.fn(f"{cname}.reassemble_chunks", rel)
@@ -2596,11 +2673,30 @@ def r11(ctx):
     rd = repo.fn("SegmentSerializer.deserialize", MESH)
 
     def spec_calls(fns, opname):
+        """(function, node whose guards count, table path, key path) for every `self.<table>[key]` spec that reaches
+        a `<stream>.<opname>(spec, ..)` call: directly, or handed to a self. helper that passes its parameter on."""
         out = []
         for f in fns:
-            for c in find_calls(f.node, opname):
-                for a in c.args:
-                    if isinstance(a, ast.Subscript) and (ap(a.value) or "").startswith("self."):
+            for a in walk(f.node, into_defs=True):
+                if not (isinstance(a, ast.Subscript) and isinstance(a.ctx, ast.Load) and (ap(a.value) or "").startswith("self.")):
+                    continue
+                c = parent(a)
+                if not (isinstance(c, ast.Call) and any(x is a for x in c.args)):
+                    continue
+                if call_attr(c) == opname and not (isinstance(c.func, ast.Attribute) and isinstance(c.func.value, ast.Name)
+                                                   and c.func.value.id in ("self", "cls")):
+                    out.append((f, c, ap(a.value), ap(a.slice)))
+                elif isinstance(c.func, ast.Attribute) and isinstance(c.func.value, ast.Name) and c.func.value.id in ("self", "cls") \
+                        and f.cls is not None:
+                    h = _lookup_method(repo, f.cls, c.func.attr)
+                    if h is None:
+                        continue
+                    hp = _first_params(h)
+                    if not any((ap(d) or "").split(".")[-1] == "staticmethod" for d in h.node.decorator_list):
+                        hp = hp[1:]
+                    idx = next(i for i, x in enumerate(c.args) if x is a)
+                    if idx < len(hp) and any(call_attr(hc) == opname and any(ap(x) == hp[idx] for x in hc.args)
+                                             for hc in calls(h.node)):
                         out.append((f, c, ap(a.value), ap(a.slice)))
         return out
     ws = spec_calls(class_methods_reachable(repo, wr), "write")
@@ -2702,7 +2798,8 @@ def r13(ctx):
     for h in sibs:
         fns = class_methods_reachable(repo, h)
         marks = [c for c in find_calls(h.node, "mark_done")] or \
-            [c for f in fns[1:] if find_calls(f.node, "mark_done") for c in find_calls(h.node, f.name)]
+            [c for f in fns[1:] if find_calls(f.node, "mark_done") for c in find_calls(h.node, f.name)] or \
+            [site for _, _, site in _object_method_sites(repo, h, "mark_done")]
         ctx.require(marks, f"C20.R13: {h.qual}: completion decision not found in the handler (re-read)")
         last = marks[-1]
         early = [r for r in walk(h.node) if isinstance(r, ast.Return) and _precedes(r, last)]
@@ -2823,7 +2920,7 @@ def r15(ctx):
                 continue
             looped = in_loop or any(isinstance(a, (ast.While, ast.For, ast.AsyncFor)) for a in ancestors(c) if a is not f.node)
             if isinstance(c.func, ast.Attribute) and ap(c.func.value) == rname and c.func.attr == "readline":
-                out.append(("scan" if looped else "line", f, c))
+                out.append(("scan" if looped else "line", f, c, dict(env)))
             elif depth < 3 and isinstance(c.func, ast.Attribute) and isinstance(c.func.value, ast.Name) \
                     and c.func.value.id in ("cls", "self") and f.cls is not None and any(ap(a) == rname for a in c.args):
                 h = _lookup_method(repo, f.cls, c.func.attr)
@@ -2863,7 +2960,7 @@ def r15(ctx):
     between = [o for o in seq[lines[0] + 1:lines[1]] if o[0] == "scan"]
     # the name has a line of its own and the writer emits it verbatim: the reader may take the line terminator off,
     # nothing else (a bare rstrip() also removes every trailing blank of the name)
-    _, nf, ncall = seq[lines[1]]
+    _, nf, ncall, nenv = seq[lines[1]]
     strips = []
     up = parent(ncall)
     if isinstance(up, ast.Attribute) and isinstance(parent(up), ast.Call) and parent(up).func is up:
@@ -2881,6 +2978,8 @@ def r15(ctx):
         if c.func.attr not in ("rstrip", "removesuffix"):
             return False
         chars = nev.ev(c.args[0]) if len(c.args) == 1 and not c.keywords else None
+        if len(c.args) == 1 and isinstance(c.args[0], ast.Name) and c.args[0].id in nenv:
+            chars = nenv[c.args[0].id]      # a helper parameter bound to a constant at the call site
         return isinstance(chars, str) and chars != "" and set(chars) <= {"\r", "\n"}
     ok_strip = bool(strips) and all(terminator_only(c) for c in strips)
     _ob(ctx, "C20.R15", "Wearable.from_reader: only the line terminator is taken off the name line", ok_strip,
